@@ -15,11 +15,14 @@ and an independent Python byte queue.
 Operating-system faults (Proof/BuffersFault.v, harness FaultEnv): at every
 operation that changes the representation an exception is injected into
 TemporaryFile() / BytesIO() and into every call of write/seek/tell/read on the
-files involved; the theorem C17_fault_atomicity_partial (constructor faults) and
-the model's step_f are compared with the real code, and the fault specification
-(exception propagates, queue intact, later operations behave) is searched
-directly; three site classes where the unchanged code only keeps the weaker
-guarantee "nothing destroyed" are open known findings."""
+files involved; the theorem C17_fault_atomicity (every fault of the model: file
+constructors, the copy loop's write, the write of _create_buffer's
+buf.append(self.strbuf), the write of append()'s buf.append(s)) and the model's
+step_f are compared with the real code, and the fault specification (exception
+propagates, queue intact, later operations behave) is searched directly at every
+call of every file method.  The three site classes where the code used to keep
+only the weaker guarantee "nothing destroyed" were repaired by /repo commit
+c9585b7; C17_fault_old_shape_refuted keeps the witness against the old shape."""
 import hashlib
 import json
 
@@ -32,7 +35,7 @@ ASSUMPTIONS = [
     "operations are those the server issues: append, get(numbytes, skip), skip(numbytes >= 0, allow_prune), __len__, getfile, close; prune() is outside the property; the file returned by getfile() is not read or written by the caller while the buffer is still in use",
     "ReadOnlyFileBasedBuffer: seekable wrapped file positioned inside its content, prepare(size) with size None or >= 0, get(numbytes >= -1)",
     "the COPY_BYTES loop of FileBasedBuffer.__init__ is modelled as one whole-file copy (K-buf runs the real loop)",
-    "faults: the model carries the failure of the new file object's construction (FCtor KTmp / KBio) and of the first write of a single-chunk copy loop (FCopyWrite); failures of other file calls are search-only (injected through subclass/wrapper objects around real BytesIO / TemporaryFile); an injected exception is raised before the real call takes effect, partial writes are not simulated",
+    "faults: the model carries the failure of the new file object's construction (FCtor KTmp / KBio), of the first write of a single-chunk copy loop (FCopyWrite), of the write inside _create_buffer's buf.append(self.strbuf) (FCreateWrite) and of the write inside append()'s buf.append(s) (FAppendWrite); the compensating seek in a finally block and close() in the except block are assumed not to fail; failures of other file calls (seek / tell / read) are search-only (injected through subclass/wrapper objects around real BytesIO / TemporaryFile); an injected exception is raised before the real call takes effect, partial writes are not simulated",
 ]
 
 
@@ -128,11 +131,25 @@ def check_ro_batch(ctx, runner, cases, stats, fail_sink):
     return nops
 
 
-KF_SITE_CLASS = {
-    "copy": "kf_c17_fault_copy",
-    "create_append": "kf_c17_fault_create_append",
-    "append": "kf_c17_fault_append",
-}
+# site classes where a fault only keeps the weaker guarantee "nothing destroyed": none is open
+# (the three that were -- copy, create_append, append -- were repaired by /repo commit c9585b7)
+KF_SITE_CLASS = {}
+
+# Faults injected into seek()/tell(): a failing *compensating* seek (the seek back to the read
+# position in a finally block) cannot be compensated by any code, so for these two methods the
+# specification is the weaker one -- the exception propagates and nothing is destroyed (the
+# buffer is open, every queued byte is still stored, the counters are those of the queue).
+# lseek on a regular file and BytesIO.seek do not fail for lack of space or descriptors; these
+# injections are kept as a robustness probe of the "nothing destroyed" part only.
+WEAK_IS_ENOUGH = ("seek", "tell")
+
+
+def _violates(v, fault, where):
+    if v == "bad":
+        return True
+    if v == "weak":
+        return fault[1] not in WEAK_IS_ENOUGH and where not in KF_SITE_CLASS
+    return False
 
 
 def check_fault_batch(ctx, runner, hists, stats, sink, kf_sink):
@@ -165,16 +182,19 @@ def check_fault_batch(ctx, runner, hists, stats, sink, kf_sink):
                 stats["nontrivial"].add(_hist_key([list(h), at, list(f)]))
                 case = (h, at, f)
                 obs = "%s | %s" % (rows[at][0], rows[at][1])
-                if v == "bad" or (v == "weak" and where not in KF_SITE_CLASS):
+                if _violates(v, f, where):
                     sink.append((case, (at + 1, "fault", d, obs), where))
+                elif v == "weak" and f[1] in WEAK_IS_ENOUGH:
+                    stats["fault_weak_seek_tell"] = stats.get("fault_weak_seek_tell", 0) + 1
                 elif v == "weak":
                     cls = KF_SITE_CLASS[where]
                     old = kf_sink.get(cls)
                     if old is None or len(json.dumps(case)) < len(json.dumps(old[0])):
                         kf_sink[cls] = (case, (at + 1, "fault", d, obs), where)
                     stats["fault_kf"][cls] = stats["fault_kf"].get(cls, 0) + 1
-                ml = hb.fault_model_lines(h, at, f)
-                if ml is not None and (f[1] == "ctor" or (where == "copy" and site[3].get(("tmp", "write")) == 1)):
+                ml = hb.fault_model_lines(h, at, f, where)
+                if ml is not None and (f[1] == "ctor" or where in ("create_append", "append")
+                                       or (where == "copy" and site[3].get(("tmp", "write")) == 1)):
                     pending.append((case, rows, ml, where))
     if pending:
         lines = []
@@ -429,14 +449,14 @@ def replay(data):
         for i, (r, op) in enumerate(zip(rows, [hb.op_line(x)[:40] for x in h[2]])):
             print("  %-24s -> %s | %s%s" % (op, r[0], r[1], "   <- %s injected into %s.%s call %d (site %s)" % (f[3], f[0], f[1], f[2], where) if i == at else ""))
         d = None
-        ml = hb.fault_model_lines(h, at, f)
-        if runner is not None and ml is not None and (f[1] == "ctor" or data.get("against") == "model"):
+        ml = hb.fault_model_lines(h, at, f, where)
+        if runner is not None and ml is not None and (f[1] == "ctor" or where in ("create_append", "append") or data.get("against") == "model"):
             d = hb.compare_faulted_model(rows, runner.query(ml))
         kf_open = {k.get("class") for k in vcommon.known_findings("C17")}
-        if v == "bad" or (v == "weak" and KF_SITE_CLASS.get(where) not in kf_open):
+        if v == "bad" or (v == "weak" and f[1] not in WEAK_IS_ENOUGH and KF_SITE_CLASS.get(where) not in kf_open):
             d = d or (at + 1, "fault", why, rows[at][0])
         elif v == "weak":
-            print("verdict weak (known finding %s): %s" % (KF_SITE_CLASS.get(where), why))
+            print("verdict weak (accepted: failing seek/tell, nothing destroyed): %s" % why)
         else:
             print("verdict %s" % v)
     elif data.get("kind") == "ro":
